@@ -836,6 +836,32 @@ impl<'a, 'ast> Visit<'ast> for Rules<'a> {
         visit::visit_stmt(self, st);
     }
 
+    /// R21: `StatementData { f: e, ..Default::default() }` -> the remaining fields written out with their
+    /// `Default` values (the struct derives Default; Verus has no struct-update-from-Default)
+    fn visit_expr_struct(&mut self, st: &'ast syn::ExprStruct) {
+        let is_sd = st.path.segments.last().map(|x| x.ident == "StatementData").unwrap_or(false);
+        if let (true, Some(rest), Some(dd)) = (is_sd, &st.rest, st.dot2_token) {
+            let rt: String = self.src.slice(self.r(rest.span())).chars().filter(|c| !c.is_whitespace()).collect();
+            if rt == "Default::default()" {
+                let given: Vec<String> = st.fields.iter().filter_map(|f| match &f.member { syn::Member::Named(i) => Some(i.to_string()), _ => None }).collect();
+                let mut parts: Vec<String> = vec![];
+                for (name, dflt) in [("long_data", "HashMap::new()"), ("bound_types", "Vec::new()"), ("params", "0")] {
+                    if !given.iter().any(|g| g == name) {
+                        parts.push(format!("{}: {}", name, dflt));
+                    }
+                }
+                let a = self.r(dd.span()).0;
+                let b = self.r(rest.span()).1;
+                self.push("R21", (a, b), vec![lit(&parts.join(", "))]);
+                for f in &st.fields {
+                    self.visit_expr(&f.expr);
+                }
+                return;
+            }
+        }
+        visit::visit_expr_struct(self, st);
+    }
+
     fn visit_expr_macro(&mut self, m: &'ast syn::ExprMacro) {
         let r = self.r(m.mac.span());
         self.handle_macro(&m.mac, r);
